@@ -2,6 +2,7 @@ package props
 
 import (
 	"fmt"
+	"math"
 	"strings"
 
 	"github.com/gcash/bchd/chaincfg/chainhash"
@@ -304,7 +305,7 @@ func c19select(c *vf.Ctx, st *c19stats, which int, p c19params, list []*c19coin)
 			}
 		}
 	case c19MinPriority:
-		if totalVA < p.minAvg*int64(len(ids)) {
+		if len(ids) > 0 && totalVA/int64(len(ids)) < p.minAvg { // floor(avg) >= min <=> avg >= min; no product that could wrap
 			c.Failf(name+"/avg-value-age", "%s: selection %v has total value-age %d over %d inputs (average %.4f) < MinAvgValueAgePerInput %d", lin, ids, totalVA, len(ids), float64(totalVA)/float64(len(ids)), p.minAvg)
 		}
 		for _, id := range ids {
@@ -436,6 +437,30 @@ func c19randList(r *vf.Rand) []*c19coin {
 			v, cf = int64(o.value), o.confs
 		}
 		list[j] = c19mkcoin(j, v, cf, salt)
+	}
+	if n > 0 && r.Chance(1, 10) {
+		// one coin whose value-age is close to the top of the int64 range
+		// (2^61 .. 2^63; the sum over the whole list still fits an int64):
+		// products such as MinAvgValueAgePerInput x count no longer fit
+		j := r.Intn(n)
+		var others int64
+		for i, k := range list {
+			if i != j {
+				others += k.ValueAge()
+			}
+		}
+		if others < 1<<60 {
+			room := uint64(math.MaxInt64-others) - 1<<61
+			want := 1<<61 + r.Uint64n(room)
+			if r.Chance(1, 4) {
+				want = 1 << 62
+			}
+			v := int64(1)<<30 + int64(r.Uint64n(3<<30))
+			if r.Chance(1, 4) {
+				v = 1 << 31
+			}
+			list[j] = c19mkcoin(j, v, int64(want/uint64(v)), salt)
+		}
 	}
 	return list
 }
@@ -620,8 +645,19 @@ func c19checkSet(c *vf.Ctx, cs *coinset.CoinSet, model []*c19coin, history *[]st
 		c.Failf("CoinSet/contents", "%s: Coins() = %v (coin ids), model list = %v", in(), c19ids(got), want)
 		ok = false
 	}
+	// Coins() is documented to return a new slice: the caller reorders and
+	// overwrites what it was handed; the set must not follow
+	for a, b := 0, len(got)-1; a < b; a, b = a+1, b-1 {
+		got[a], got[b] = got[b], got[a]
+	}
+	if len(got) > 0 {
+		got[0] = c19junkCoin
+		got[len(got)/2] = c19junkCoin
+	}
 	return ok
 }
+
+var c19junkCoin = c19mkcoin(999999, 123456789, 987, 0x19)
 
 func c19coinSetCase(c *vf.Ctx, i int) {
 	r := c.R
@@ -693,6 +729,11 @@ func c19coinSetCase(c *vf.Ctx, i int) {
 	var onEmpty, pushes, removes, dupPush int64
 	for op := 0; op < nops; op++ {
 		switch {
+		case r.Chance(1, 10):
+			// no operation on the set: a second observation right after the
+			// caller edited the slice the previous Coins() call returned
+			history = append(history, "(observe-again)")
+			c.Inc("CoinSet/observed_again_after_caller_edited_returned_slice")
 		case r.Chance(pushBias, 6):
 			var k *c19coin
 			if len(model) > 0 && r.Chance(1, 10) { // the same coin once more: sums must count it twice
